@@ -2522,7 +2522,15 @@ class CallMixin(object):
             res = self.call_contract(c, fi, [o] + list(args), kw, st, node)
             return [(o, s) for _, s in res]
         ref = st.new_cell(Rec(cv.name, cv.module))
-        if fi is None: return [(ref, st)]
+        if fi is None:
+            if args or kw:
+                # a repository class whose constructor is inherited from a library base (functools.partial): the sidecar class says which
+                # attributes the library constructor sets (A4); without that the arguments would be dropped silently
+                lc = getattr(self.reg.classes.get(cv.name), 'library_ctor', None)
+                if lc is None: raise Unsupported('%s(...) with arguments: the constructor is inherited from a library class and the sidecar declares no library_ctor' % cv.name)
+                st.cells[ref.id] = Rec(cv.name, cv.module, lc(self, list(args), dict(kw), st))
+                self.reg.assume('A4: %s objects are constructed by their library base class (attributes as declared by library_ctor in the sidecar)' % cv.name)
+            return [(ref, st)]
         return [(ref, s) for _, s in self.call_function(fi, [ref] + list(args), kw, st, self_cls=(fi.module, fi.cls), node=node)]
 
     def construct_local(self, lc, args, kw, st, node):
